@@ -25,6 +25,7 @@ func init() {
 }
 
 func runC15(c *eng.Ctx) {
+	defer runC15Order(c)
 	p := c.P
 	T := "tsdb/record:Type"
 	// ---- R1 exhaustiveness ----
